@@ -242,14 +242,21 @@ func runColumnTable(c *Ctx, onlyTypes map[string]bool) {
 						} else {
 							cal = staticCallee(call)
 						}
-						if cal != nil && len(cal.Blocks) == 1 {
-							if ret, isRet := cal.Blocks[0].Instrs[len(cal.Blocks[0].Instrs)-1].(*ssa.Return); isRet {
-								if bo, isBo := ret.Results[0].(*ssa.BinOp); isBo && bo.Op == token.EQL && bo.X == ssa.Value(cal.Params[0]) {
-									if s, isS := constString(bo.Y); isS && s == "1" {
-										ok = true
-									}
-								}
+						if isCellEqualsOne(cal) {
+							ok = true
+						}
+					}
+					// the decoded flag may have been parked in a local (array) before it is stored: the helper is the
+					// one function of the package the expression names
+					if !ok {
+						var named []*ssa.Function
+						for _, g := range c.P.ModFns {
+							if g.Parent() == nil && g.Name() == calls[0] && fnPkgPath(g) == modPath {
+								named = append(named, g)
 							}
+						}
+						if len(named) == 1 && isCellEqualsOne(named[0]) && expr == calls[0]+"(col:"+o.cols[0]+")" {
+							ok = true
 						}
 					}
 				}
@@ -440,12 +447,28 @@ func runTimeFormulas(c *Ctx) {
 				var zones []string
 				okZone := true
 				for _, lf := range c.valueLeaves(call.Call.Args[2]) {
-					e := b.bind(lf)
-					zones = append(zones, clip(e, 80))
-					isUTC := e == "global:UTC"
-					isAgency := strings.Contains(e, "time.LoadLocation(") && strings.Contains(e, ".Agencies[const:0].Timezone")
-					if !isUTC && !isAgency {
-						okZone = false
+					exprs := []string{b.bind(lf)}
+					// a helper that loads the named zone and falls back itself: what it can return, in terms of its argument
+					if hc, isCall := lf.(*ssa.Call); isCall {
+						if h := hc.Call.StaticCallee(); h != nil && !hc.Call.IsInvoke() && c.P.isModuleFn(h) && len(h.Blocks) > 0 && h.Signature.Results().Len() == 1 && len(h.Params) == len(hc.Call.Args) {
+							var args []string
+							for _, a := range hc.Call.Args {
+								args = append(args, b.bind(a))
+							}
+							sub := b.withArgs(h, args)
+							exprs = nil
+							eachReturned(h, 0, func(rv ssa.Value, at *ssa.BasicBlock, ret *ssa.Return) {
+								exprs = append(exprs, sub.bind(rv))
+							})
+						}
+					}
+					for _, e := range exprs {
+						zones = append(zones, clip(e, 80))
+						isUTC := e == "global:UTC"
+						isAgency := strings.Contains(e, "time.LoadLocation(") && strings.Contains(e, ".Agencies[const:0].Timezone")
+						if !isUTC && !isAgency {
+							okZone = false
+						}
 					}
 				}
 				sort.Strings(zones)
@@ -517,6 +540,23 @@ func runTimeFormulas(c *Ctx) {
 	if nOther == 0 {
 		c.Proved("TIME", "gtfs", "dates only from ParseInLocation", "-", "no time.Date / time.Unix / time.Parse / AddDate in the static parser")
 	}
+}
+
+// isCellEqualsOne: the function is `func(s string) bool { return s == "1" }`.
+func isCellEqualsOne(cal *ssa.Function) bool {
+	if cal == nil || len(cal.Blocks) != 1 || len(cal.Params) != 1 {
+		return false
+	}
+	ret, isRet := cal.Blocks[0].Instrs[len(cal.Blocks[0].Instrs)-1].(*ssa.Return)
+	if !isRet || len(ret.Results) != 1 {
+		return false
+	}
+	bo, isBo := ret.Results[0].(*ssa.BinOp)
+	if !isBo || bo.Op != token.EQL || bo.X != ssa.Value(cal.Params[0]) {
+		return false
+	}
+	s, isS := constString(bo.Y)
+	return isS && s == "1"
 }
 
 // polyEnv: while the body of an arithmetic helper is read, its parameters stand for the polynomials of the arguments.
@@ -696,6 +736,63 @@ type fileRow struct {
 	pos      token.Pos
 }
 
+// rangedTableLiteral: the composite literal a range statement runs over: written in place (`range []T{...}`), or
+// assigned once to the local variable that is ranged over (`tables := []T{...}; for _, t := range tables`). Only
+// literals whose elements contain function literals count (the file table).
+func rangedTableLiteral(fd *ast.FuncDecl, rs *ast.RangeStmt) *ast.CompositeLit {
+	hasFuncs := func(cl *ast.CompositeLit) bool {
+		has := false
+		ast.Inspect(cl, func(m ast.Node) bool {
+			if _, isFL := m.(*ast.FuncLit); isFL {
+				has = true
+			}
+			return !has
+		})
+		return has
+	}
+	if cl, ok := rs.X.(*ast.CompositeLit); ok {
+		if hasFuncs(cl) {
+			return cl
+		}
+		return nil
+	}
+	id, ok := rs.X.(*ast.Ident)
+	if !ok {
+		return nil
+	}
+	var found *ast.CompositeLit
+	n := 0
+	ast.Inspect(fd, func(m ast.Node) bool {
+		switch x := m.(type) {
+		case *ast.AssignStmt:
+			for i, l := range x.Lhs {
+				if li, isId := l.(*ast.Ident); isId && li.Name == id.Name && i < len(x.Rhs) {
+					n++
+					if cl, isCL := x.Rhs[i].(*ast.CompositeLit); isCL && hasFuncs(cl) {
+						found = cl
+					}
+				}
+			}
+		case *ast.ValueSpec:
+			for i, nm := range x.Names {
+				if nm.Name == id.Name {
+					n++
+					if i < len(x.Values) {
+						if cl, isCL := x.Values[i].(*ast.CompositeLit); isCL && hasFuncs(cl) {
+							found = cl
+						}
+					}
+				}
+			}
+		}
+		return true
+	})
+	if n != 1 {
+		return nil
+	}
+	return found
+}
+
 // runFileTable reads the composite literal that drives ParseStatic.
 func runFileTable(c *Ctx) {
 	p := c.P
@@ -718,8 +815,8 @@ func runFileTable(c *Ctx) {
 		if !ok {
 			return true
 		}
-		cl, ok := rs.X.(*ast.CompositeLit)
-		if !ok {
+		cl := rangedTableLiteral(fd, rs)
+		if cl == nil {
 			return true
 		}
 		for _, el := range cl.Elts {
